@@ -250,6 +250,14 @@ Dec2(tn, b, pos, lim) ==
                   ELSE IF IsBitElem(t.elem.t) THEN
                          (IF (c.v + 7) \div 8 > blim - c.pos + 1 THEN Err2
                           ELSE OK2(BitsDec(SubSeq(b, c.pos, blim), c.v), blim + 1))
+                  \* an array of constant size n ([n]T): the count is explicit all the same; missing elements
+                  \* are default, surplus ones are ignored (TL2 primer, "Massivy"), and no count is allocated
+                  ELSE IF t.tuple /\ ~t.dyn THEN
+                         (LET n == N4(t.count)
+                              m == IF c.v < n THEN c.v ELSE n
+                              r == DecElems2(t, b, c.pos, blim, m, <<>>)
+                          IN IF ~r.ok THEN Err2
+                             ELSE OK2(r.v \o [j \in 1..(n - m) |-> Default2(t.elem.t)], blim + 1))
                   ELSE IF c.v > blim - c.pos + 1 THEN Err2
                   ELSE LET r == DecElems2(t, b, c.pos, blim, c.v, <<>>) IN
                        IF ~r.ok THEN Err2
